@@ -3,16 +3,16 @@ C17 — Marker projections only ever weaken; reduction by a Python range is exac
 Property theorems only (helper lemmas in Proofs/MarkerProj.lean).
 
 Vocabulary.  `M.sem ev m` is the truth of the marker tree `m` when `ev` gives the truth of its
-single-marker-likes (`any` ↦ true, `empty` ↦ false, `multi` ↦ all, `union` ↦ any); `evalLeaf E` is that
-leaf truth taken from poetry's own `validate` on the environment `E`, and `validate_eq_sem` shows
-`M.validate E m = .ok (M.sem (evalLeaf E) m)` whenever every leaf of `m` evaluates on `E`.
+single-marker-likes (`any` ↦ true, `empty` ↦ false, `multi` ↦ all, `union` ↦ any); `leafEval E` is that
+leaf truth taken from poetry's own `validate` on the environment `E`, and C07's `M.validate_eq_sem` shows
+`M.validate E m = .ok (M.sem (leafEval E) m)` whenever every leaf of `m` evaluates on `E` (`M.Evaluable E m`).
 `M.vars m` lists the variable names at the leaves.
 
 Staging.  `only`, `exclude`, `reduce_by_python_constraint` rebuild their result with `MultiMarker.of`,
 `MarkerUnion.of`, `intersection`, `intersect`, whose soundness is C07's (`Proofs/MarkerAlgSound.lean`,
 every fuel and recursion stack).  That development is relative to a leaf specification
 `LeafSpec ev G` (marker equality and leaf merging respect the leaf truth `ev` on leaves satisfying the
-invariant `G`; the concrete instance for `evalLeaf E` is C06/C07's subject) — the theorems below take the
+invariant `G`; the concrete instance for `leafEval E` is C06/C07's subject) — the theorems below take the
 same `S : LeafSpec ev G` and `M.Good G m`, so they compose with C07 without further hypotheses.  What
 remains explicit: `OfVars` (the two `of` constructors mention no new variable) for `only_mentions`, and
 `ReduceCtx` (C11's `pyConstraint_exact` / `createNested_exact` through `parse_marker`, C12's `allows_all` /
@@ -20,29 +20,13 @@ remains explicit: `OfVars` (the two `of` constructors mention no new variable) f
 `C17_…_full_statement`.
 -/
 import PoetryVerif.Proofs.MarkerProj
+import PoetryVerif.Proofs.MarkerAlgSoundOps
 
 set_option linter.unusedSimpArgs false
 set_option linter.unusedVariables false
 
 namespace Poetry.C17
 open Poetry Poetry.Marker
-
-/-- leaf truth from poetry's own evaluation (`SingleMarkerLike.validate`); a leaf whose evaluation raises
-counts as not established — the theorems that use `evalLeaf` assume every leaf evaluates (`Evaluates`) -/
-def evalLeaf (E : Env) (l : Leaf) : Bool :=
-  match l.validate E with
-  | .ok true => true
-  | _ => false
-
-/-- every single-marker-like of `m` evaluates on `E` (no exception) -/
-def Evaluates (E : Env) (m : M) : Prop := ∀ l ∈ M.leaves m, ∃ b, l.validate E = .ok b
-
-theorem validate_eq (E : Env) (m : M) (h : Evaluates E m) :
-    M.validate E m = .ok (M.sem (evalLeaf E) m) := by
-  apply validate_eq_sem
-  intro l hl
-  obtain ⟨b, hb⟩ := h l hl
-  cases b <;> simp [evalLeaf, hb]
 
 /-- `MultiMarker.of` / `MarkerUnion.of` mention no variable that their operands do not mention -/
 def OfVars : Prop :=
@@ -79,12 +63,12 @@ theorem only_weakens {ev : Leaf → Bool} {G : Leaf → Prop} (S : LeafSpec ev G
   only_weakens_aux S names m r hg h
 
 /-- the same through poetry's own `validate`, on an environment where the leaves evaluate -/
-theorem only_weakens_validate_partial (E : Env) {G : Leaf → Prop} (S : LeafSpec (evalLeaf E) G)
+theorem only_weakens_validate_partial (E : Env) {G : Leaf → Prop} (S : LeafSpec (leafEval E) G)
     (names : List String) (m r : M) (hg : M.Good G m)
-    (h : M.only names m = .ok r) (hem : Evaluates E m) (her : Evaluates E r)
+    (h : M.only names m = .ok r) (hem : M.Evaluable E m) (her : M.Evaluable E r)
     (hm : M.validate E m = .ok true) : M.validate E r = .ok true := by
-  rw [validate_eq E m hem] at hm
-  rw [validate_eq E r her]
+  rw [M.validate_eq_sem E m hem] at hm
+  rw [M.validate_eq_sem E r her]
   injection hm with hm
   rw [(only_weakens S names m r hg h).2 hm]
 
@@ -105,7 +89,7 @@ def C17_only_mentions_full_statement : Prop :=
 
 def C17_only_weakens_full_statement : Prop :=
   ∀ (text : String) (S : List String) (m r : M) (E : Env), parseMarker text = .ok m → M.only S m = .ok r →
-    Evaluates E m → Evaluates E r → M.validate E m = .ok true → M.validate E r = .ok true
+    M.Evaluable E m → M.Evaluable E r → M.validate E m = .ok true → M.validate E r = .ok true
 
 /-! ## `exclude`, `without_extras` -/
 
@@ -127,14 +111,14 @@ theorem without_extras_eq (m : M) : M.withoutExtras m = M.exclude "extra" m := r
 
 example : allLeaves [.leaf lPy, .leaf lExtra, .leaf lSys] = true ∧
     M.excludeList "extra" [.leaf lPy, .leaf lExtra, .leaf lSys] = .ok [.leaf lPy, .leaf lSys] ∧
-    semAllExcept (evalLeaf exEnv) "extra" [.leaf lPy, .leaf lExtra, .leaf lSys] = false ∧
-    semAllExcept (evalLeaf exEnv) "sys_platform" [.leaf lPy, .leaf lExtra, .leaf lSys] = true := by
+    semAllExcept (leafEval exEnv) "extra" [.leaf lPy, .leaf lExtra, .leaf lSys] = false ∧
+    semAllExcept (leafEval exEnv) "sys_platform" [.leaf lPy, .leaf lExtra, .leaf lSys] = true := by
   refine ⟨rfl, rfl, by decide, by decide⟩
 
 def C17_exclude_conj_full_statement : Prop :=
   ∀ (E : Env) (x : String) (ms : List M) (r : M), allLeaves ms = true →
-    Evaluates E (.multi ms) → Evaluates E r →
-    M.exclude x (.multi ms) = .ok r → M.validate E r = .ok (semAllExcept (evalLeaf E) x ms)
+    M.Evaluable E (.multi ms) → M.Evaluable E r →
+    M.exclude x (.multi ms) = .ok r → M.validate E r = .ok (semAllExcept (leafEval E) x ms)
 
 /-! ## `reduce_by_python_constraint` -/
 
@@ -160,6 +144,6 @@ def C17_reduce_exact_full_statement : Prop :=
     E.get? "python_full_version" = some (pyOf X Y Z).text →
     E.get? "python_version" = some (Version.relText [X, Y]) →
     pc.allows (pyOf X Y Z) = .ok true → M.reduce pc m = .ok r →
-    Evaluates E m → Evaluates E r → M.validate E r = M.validate E m
+    M.Evaluable E m → M.Evaluable E r → M.validate E r = M.validate E m
 
 end Poetry.C17
